@@ -44,7 +44,7 @@ var bad2 = []string{
 // mix them up)
 var tmpls = []string{
 	"{{.Vector}} {{.EnvironmentalScore}} {{.SeverityName}}={{.SeverityValue}} {{.BaseReport.Vector}} {{.MAVName}}={{.MAVValue}} {{.TemporalReport.SeverityValue}}",
-	"{{with .TemporalReport}}{{.Vector}} {{.TemporalScore}}{{end}}|{{.CRName}}={{.CRValue}}|{{if .MSValue}}{{.MSName}}{{end}} {{.BaseScore}}",
+	"{{define \"row\"}}<{{.}}>{{end}}{{with .TemporalReport}}{{.Vector}} {{.TemporalScore}}{{end}}|{{.CRName}}={{.CRValue}}|{{if .MSValue}}{{.MSName}}{{end}} {{template \"row\" .BaseScore}}",
 	"{{define \"row\"}}[{{.}}]{{end}}{{template \"row\" .AVValue}}{{template \"row\" .MAValue}} {{.Version}} {{.EnvironmentalScore | printf \"%6s\"}}",
 }
 
@@ -209,6 +209,29 @@ var Ops = []Op{
 	{"v3 ExportWith(reader) on a report built before, one template per thread", true, func(e *Env, slot int) func() string {
 		return func() string {
 			r, err := e.Rep[slot].ExportWith(strings.NewReader(tmpls[slot%len(tmpls)]))
+			if err != nil {
+				return "error: " + err.Error()
+			}
+			b, _ := io.ReadAll(r)
+			return string(b)
+		}
+	}},
+	{"v3 export of the base / temporal / environmental report (by thread) of one object, same template", true, func(e *Env, slot int) func() string {
+		return func() string {
+			const t = "{{.Vector}} {{.SeverityName}}={{.SeverityValue}} {{.BaseScore}} {{.AVValue}}"
+			opt := report.WithOptionsLanguage(language.Japanese)
+			var rep interface {
+				ExportWithString(string) (io.Reader, error)
+			}
+			switch slot % 3 {
+			case 0:
+				rep = report.NewBase(e.E3[slot].BaseMetrics(), opt)
+			case 1:
+				rep = report.NewTemporal(e.E3[slot].TemporalMetrics(), opt)
+			default:
+				rep = report.NewEnvironmental(e.E3[slot], opt)
+			}
+			r, err := rep.ExportWithString(t)
 			if err != nil {
 				return "error: " + err.Error()
 			}
